@@ -319,9 +319,9 @@ func (vc *VC) rvInterface(v Val) Val {
 
 // errTarget describes one error value used as an errors.Is target.
 type errTarget struct {
-	val  Val          // interface value (canonical box)
-	g    *ssa.Global  // repository variable (nil for standard-library variables)
-	conc types.Type   // concrete type
+	val  Val         // interface value (canonical box)
+	g    *ssa.Global // repository variable (nil for standard-library variables)
+	conc types.Type  // concrete type
 }
 
 func (w *World) errTargetList(vc *VC) []errTarget {
